@@ -193,6 +193,9 @@ type Explorer struct {
 	wallStart      time.Time
 	budgetExceeded string
 	knownIDs       map[string]bool
+	newViolations  int
+	knownViol      int
+	knownKept      map[string]int
 }
 
 func NewExplorer(P *Program, cfg *Config, harness *ssa.Function, hname string) *Explorer {
@@ -313,7 +316,7 @@ func (ex *Explorer) worker(id int) (err error) {
 			ex.budgetExceeded = fmt.Sprintf("wall budget %s exhausted with %d prefixes pending", ex.cfg.Wall, len(ex.work))
 			ex.stop = true
 		}
-		if ex.cfg.MaxViolations > 0 && len(ex.violations) >= ex.cfg.MaxViolations {
+		if ex.cfg.MaxViolations > 0 && ex.newViolations >= ex.cfg.MaxViolations {
 			ex.stop = true
 		}
 		ex.cond.Broadcast()
@@ -355,7 +358,21 @@ func (ex *Explorer) record(r *PathResult) {
 		ex.knownHits[k]++
 	}
 	if r.Violation != nil {
-		ex.violations = append(ex.violations, r.Violation)
+		if len(r.Known) == 0 {
+			ex.newViolations++
+			ex.violations = append(ex.violations, r.Violation)
+		} else {
+			// violations inside a listed finding's region: keep a few per region for the replay
+			key := strings.Join(r.Known, ",")
+			if ex.knownKept == nil {
+				ex.knownKept = map[string]int{}
+			}
+			ex.knownViol++
+			if ex.knownKept[key] < 3 {
+				ex.knownKept[key]++
+				ex.violations = append(ex.violations, r.Violation)
+			}
+		}
 	}
 	if r.Status == PathInconclusive {
 		if len(ex.inconclusive) < 20 {
